@@ -297,7 +297,8 @@ def with_attrs_and_defaults(level):
         yield D(("int",), "int", ptrs=[("*", False, False)], name="f",
                 params=[D(("int",), "int", name="n", attrs=[at])], attrs=[("owner", "caller")])
     for init, spec, tname in (("1", ("int",), "int"), ("1.5", ("double",), "double"), ("true", ("bool",), "bool"),
-                              ("NAME", ("int",), "int"), ('"abc"', ("std::string",), "std::string"), ("'c'", ("char",), "char")):
+                              ("NAME", ("int",), "int"), ('"abc"', ("std::string",), "std::string"), ("'c'", ("char",), "char"),
+                              ("0", ("int",), "int"), ("010", ("int",), "int"), ("0777", ("long",), "long"), ("00", ("int",), "int"), ("0.0", ("double",), "double")):
         yield D(spec, tname, name="a", init=init)
         yield D(("void",), "void", name="f", params=[D(("int",), "int", name="n"), D(spec, tname, name="a", init=init)])
 
